@@ -74,7 +74,7 @@ bool well_formed(const Case &c) {
         (void)route;
     }
     // leak accounting needs histories that give everything back at the end
-    if ((c.profile == "leak" || c.profile == "carry") && (have || route)) return false;
+    if ((c.profile == "leak" || c.profile == "symleak" || c.profile == "carry") && (have || route)) return false;
     return true;
 }
 
@@ -145,7 +145,7 @@ MinResult minimise_and_write(Case c, const std::string &prop, const std::string 
         for (int k = (int)best.M.rowind.size() - 1; k >= 0 && mr.runs < max_runs; --k) {
             Case cand = best;
             int col = 0; while (cand.M.colptr[col + 1] <= k) ++col;
-            if (cand.profile == "sym" && cand.M.rowind[k] == col) continue;   // the profile's precondition: full diagonal
+            if ((cand.profile == "sym" || cand.profile == "symleak") && cand.M.rowind[k] == col) continue;   // the profile's precondition: full diagonal
             cand.M.rowind.erase(cand.M.rowind.begin() + k);
             for (auto &v : cand.values) v.erase(v.begin() + k);
             for (int j = col + 1; j <= cand.M.n; ++j) cand.M.colptr[j]--;
